@@ -1,7 +1,7 @@
 (* Hand-written specification side of C02: well-labelled states, the constructor's validity test,
    the canonical content of an isotherm. *)
 From Coq Require Import Reals Lra QArith ZArith String List Bool.
-From PG Require Import Lib.Num Lib.Py Gen.UnitsGen1 Units.AdsOracle Gen.UnitsGen2 Units.UnitsSpec Iso.IsoState.
+From PG Require Import Lib.Num Lib.Py Gen.UnitsGen1 Units.AdsOracle Gen.UnitsGen2 Units.UnitsSpec Units.LoadingPhys Units.C01Theorems Iso.IsoState.
 Import ListNotations.
 Open Scope R_scope.
 
@@ -14,7 +14,10 @@ Definition mk_state (rp : prep) (rl : lrep) (rm : mrep) (tk : bool) (T : R)
 
 (* the adsorbate at the isotherm temperature, with every constant available and consistent densities *)
 Definition ads_full (psat M rml rmg : R) : adsorbate RNum :=
-  mkAds RNum (Some psat) (Some M) (Some (rml * M)) (Some (rmg * M)) (Some rml) (Some rmg).
+  @ads_const RNum (Some psat) (Some M) (Some (rml * M)) (Some (rmg * M)) (Some rml) (Some rmg).
+(* an adsorbate (any functions of temperature) whose constants AT the kelvin temperature TK are these *)
+Definition ads_full_at (a : adsorbate RNum) (TK psat M rml rmg : R) : Prop :=
+  a_psat_Pa a (Some TK) = Some psat /\ ads_at a (Some TK) M rml rmg.
 Definition mat_full (dens mm : R) : material RNum := mkMat RNum (Some dens) (Some mm).
 
 (* temperature in kelvin of a state *)
